@@ -131,7 +131,7 @@ func mergedKeys(in reqIn) []string {
 }
 
 // emitBody writes the BodyCase for one exchange.
-func (g *gen) emitBody(in reqIn, s sentReq, parts []seenPart, partsOK bool, marshalSeen string, nontrivial bool) {
+func (g *gen) emitBody(in reqIn, s sentReq, parts []seenPart, orderOK, partsOK bool, marshalSeen string, nontrivial bool) {
 	for _, f := range in.Files {
 		if !quoteModelled(f.Param) || !quoteModelled(f.Name) {
 			// strconv.Quote's treatment of invalid UTF-8 / unprintable runes is not modelled: judged by the oracle alone
@@ -150,7 +150,7 @@ func (g *gen) emitBody(in reqIn, s sentReq, parts []seenPart, partsOK bool, mars
 		}
 	}
 	ko := mergedKeys(in)
-	if partsOK {
+	if orderOK {
 		if o := keyOrder(in, parts); len(o) == len(ko) {
 			ko = o
 		}
